@@ -1,7 +1,7 @@
 (* C20 — correspondence / property evaluation on what the Go scanner, parser and formatter
    did with one generated program.  Executable only. *)
 From Coq Require Import List String Ascii Bool Arith.
-From GZ Require Export C20.Model C20.Scanner.
+From GZ Require Export C20.Model C20.Scanner C20.Text.
 Import ListNotations.
 Open Scope string_scope.
 Open Scope list_scope.
@@ -295,6 +295,17 @@ Definition scan_agrees (src : option string) (ok : bool) (toks : list token) (cm
     Bool.eqb sok ok && list_eqb stok_eqb ts toks && list_eqb cmt_eqb cs cmts
   end.
 
+(* leg (t): in the sub-language where the text is a function of the description (no comments,
+   struct declarations with struct-free members, no tab or line break inside a token: [l0]) the
+   formatted TEXT is, character for character, what the text model of the Format methods and of the
+   tabwriter writes for the description -- indentation, blanks, alignment columns, blank lines *)
+Definition text_agrees (c : case) : bool :=
+  match c_ast c, c_fsrc c, c_fout c with
+  | Some a, Some f, OOk =>
+    if (match c_cmts c with [] => true | _ => false end) && l0 (c_toks c) a then String.eqb (ptext a) f else true
+  | _, _, _ => true
+  end.
+
 (* leg (i): the model parser, fed the Go scanner's tokens, builds the AST the Go parser built —
    for the source and for the formatted text *)
 Definition agrees (c : case) : bool :=
@@ -307,7 +318,8 @@ Definition agrees (c : case) : bool :=
   && match c_fout c with
      | OOk => oapi_eqb (parse (c_ftoks c)) (c_fast c)
      | _ => true
-     end.
+     end
+  && text_agrees c.
 
 (* comments: "only comment placement may differ".  Always: the formatter invents, duplicates
    and reorders no comment, and every comment survives unless it stood between two tokens printed
@@ -372,4 +384,9 @@ Definition diagnose (c : case) : option diag :=
                (c_idem c) (c_file_ok c) (c_conc_ok c) (forallb not_crash (c_muts c)) placed)
   | None => None
   end.
-Definition model_obs (c : case) := (diagnose c, parse (c_toks c), fmt (c_toks c)).
+Definition model_text (c : case) : option string :=
+  match c_ast c with
+  | Some a => if (match c_cmts c with [] => true | _ => false end) && l0 (c_toks c) a then Some (ptext a) else None
+  | None => None
+  end.
+Definition model_obs (c : case) := (diagnose c, parse (c_toks c), fmt (c_toks c), model_text c).
